@@ -4,6 +4,7 @@ import (
 	"fmt"
 	"math"
 
+	"github.com/Yiling-J/theine-go/internal"
 	"verifsim/simrt"
 )
 
@@ -64,8 +65,8 @@ func genC09(g *gen, tier string) *Scenario {
 	size := int(sc.Cache.MaxSize)
 	sc.Params["hot"] = int64(g.rng(1, size/2))
 	ratio := pick(g, 1, 2, 5, 10, 20) // one-off inserts per hot read
-	if hot := int(sc.Params["hot"]); (ratio+1)*hot >= 3*size && g.pct(75) {
-		for (ratio+1)*hot >= 3*size && ratio > 1 {
+	if hot := int(sc.Params["hot"]); (ratio+1)*hot >= 2*size && g.pct(75) {
+		for (ratio+1)*hot >= 2*size && ratio > 1 {
 			ratio--
 		}
 	}
@@ -76,6 +77,35 @@ func genC09(g *gen, tier string) *Scenario {
 		rounds = (480 + hot - 1) / hot
 	}
 	sc.Params["rounds"] = int64(rounds)
+	if mode == "hot" && tier != "thorough" && g.pct(6) || mode == "hot" && tier == "thorough" && g.pct(3) {
+		// the cache has a history that suited a large window: keys re-read once, shortly after their
+		// insert, for hundreds of sample periods (the adaptive window grows to its maximum and the
+		// climber's step decays to nothing); then the hot-set workload with a hot set of half the cache
+		sc.Family += ",after-recency-history"
+		sc.Cache.MaxSize = int64(pick(g, 32, 50, 64, 100))
+		size = int(sc.Cache.MaxSize)
+		sc.Params["recency"] = int64(g.rng(1200, 1800)) * int64(size)
+		sc.Params["hot"] = int64(size/2 - 1 - g.n(size/8+1))
+		sc.Params["ratio"] = int64(pick(g, 2, 3)) // reuse distance <= 2 x MaxSize, one-offs per pass >= the largest window
+		// long enough for the climber to undo the large window: at MaxSize 32 its step is two entries
+		// and decays, a 248-round trace ended at 0.88 and the same trace with 500 rounds at 1.0
+		sc.Params["rounds"] = int64(g.rng(600, 800))
+	}
+	if mode == "hot" && kind != "loading" && g.pct(15) {
+		sc.Cache.Doorkeeper = true
+		sc.Family += ",doorkeeper"
+	}
+	if mode == "hot" && g.pct(30) {
+		// the cache is full of other content (stored, never read) when the hot set shows up
+		sc.Params["prefill"] = int64(g.rng(size, 3*size))
+		// the hot keys have to win their way in against resident content first: a longer trace
+		// (a 32-round trace ended at 0.945 over its last third, an 80-round one at 0.937; the same
+		// traces with 300 rounds at 1.000)
+		if r := int64(g.rng(240, 320)); sc.Params["rounds"] < r {
+			sc.Params["rounds"] = r
+		}
+		sc.Family += ",prefilled"
+	}
 	sc.Params["skew"] = int64(pick(g, 70, 90, 100, 130))  // zipf exponent x100
 	sc.Params["space"] = int64(size * pick(g, 10, 30, 100))
 	sc.Params["len"] = int64(size * pick(g, 40, 80))
@@ -175,16 +205,56 @@ func setupC09(env *simEnv) {
 		if len(rd.Sc.Clients) > 0 {
 			cls = "after-concurrent-use"
 		}
+		if pre := int(p["prefill"]); pre > 0 {
+			for pass := 0; pass < 2; pass++ { // twice: a doorkeeper refuses the first offer
+				for i := 0; i < pre; i++ {
+					if loading {
+						api.get(1<<27 + i)
+					} else {
+						api.set(1<<27+i, int64(1<<27+i)<<8|1, 1, 0)
+					}
+					if i%64 == 0 {
+						api.wait()
+					}
+				}
+			}
+			api.wait()
+			probe("c09.prefilled")
+		}
+		if nrec := int(p["recency"]); nrec > 0 {
+			next := 1 << 26
+			dist := size * 8 / 10
+			pending := map[int][]int{}
+			for i := 0; i < nrec; i++ {
+				k := next
+				next++
+				read(k)
+				d := i + 1 + r.Intn(dist)
+				pending[d] = append(pending[d], k)
+				for _, old := range pending[i] {
+					read(old)
+				}
+				delete(pending, i)
+			}
+			api.wait()
+			probe("c09.recency-history")
+			if !simrt.RaceEnabled {
+				sn := internal.Snapshot(rd.Store)
+				if sn.Regions[0].Capacity*2 > uint(size) {
+					probe("c09.recency-history-window-above-half")
+				}
+			}
+		}
 		if p["mode"] == 0 {
 			hot := int(p["hot"])
 			ratio := int(p["ratio"])
 			rounds := int(p["rounds"])
 			next := 1 << 24
 			var hits, reads int
-			for round := 0; round < rounds; round++ {
+			oneRound := func(count bool) {
 				for h := 0; h < hot; h++ {
 					hit := read(h)
-					if round >= rounds*2/3 {
+					if count {
 						reads++
 						if hit {
 							hits++
@@ -204,17 +274,46 @@ func setupC09(env *simEnv) {
 					}
 				}
 			}
+			for round := 0; round < rounds; round++ {
+				oneRound(round >= rounds*2/3)
+			}
 			hr := float64(hits) / float64(reads)
 			rec.N = int(hr * 10000)
 			rd.Extra = map[string]any{"mode": "hot", "hot": hot, "maxsize": size, "ratio": ratio, "rounds": rounds, "hit_ratio_last_third": hr}
 			probe("c09.hot-trace")
-			if (ratio+1)*hot >= 4*size {
-				cls += ",reuse-distance>=4xMaxSize"
+			// the sketch ages every 10 x MaxSize additions: measured on the unchanged tree the hot set is
+			// retained completely (1.000 in 3000 traces) up to a reuse distance of 2 x MaxSize (2.5 x on
+			// a cache that started empty) and degrades gradually beyond (0.94 at 2.25 when the cache was
+			// full of other content before, 0.945 at 2.97, 0.77 at 5, 0.15 at 10): the known finding
+			if (ratio+1)*hot >= 2*size {
+				cls += ",reuse-distance>=2xMaxSize"
 			} else {
-				cls += ",reuse-distance<4xMaxSize"
+				cls += ",reuse-distance<2xMaxSize"
 			}
-			if hr < 0.95 {
-				rd.violate("C09/hot-set-lost/"+cls, fmt.Sprintf("MaxSize %d, hot set of %d keys read %d times each with %d never-again inserts per read: hit ratio of hot reads over the last third of the trace is %.3f (< 0.95)", size, hot, rounds, ratio, hr))
+			floor := 0.95
+			if p["recency"] > 0 {
+				cls += ",after-recency-history"
+			}
+			// "converges": a trace that is not there yet is continued, in blocks of 30 rounds, until a
+			// block reaches the floor or 3000 rounds have been played (slow starts are legal: a cache
+			// that was full of other content took up to several hundred rounds to admit the last hot
+			// key; what is not legal is a steady state below the floor). Not for the known-finding
+			// class of long reuse distances, whose steady state is known to be below it.
+			total := rounds
+			for hr < floor && (ratio+1)*hot < 2*size && total < 3000 {
+				hits, reads = 0, 0
+				for i := 0; i < 30; i++ {
+					oneRound(true)
+				}
+				total += 30
+				hr = float64(hits) / float64(reads)
+				probe("c09.trace-extended")
+			}
+			rd.Extra["rounds_played"] = total
+			rd.Extra["hit_ratio_final"] = hr
+			rounds = total
+			if hr < floor {
+				rd.violate("C09/hot-set-lost/"+cls, fmt.Sprintf("MaxSize %d, hot set of %d keys read %d times each with %d never-again inserts per read: hit ratio of hot reads over the last third of the trace is %.3f (< %.2f)", size, hot, rounds, ratio, hr, floor))
 			}
 		} else {
 			space := int(p["space"])
